@@ -41,6 +41,13 @@ Theorem C16_plays_segment_partial : forall c wd bin,
 Proof. exact sample_segment_decodes. Qed.
 Print Assumptions C16_plays_segment_partial.
 
+(* (2b) half rate: every second sample of the whole program = every second sample of each piece, when all pieces have
+   an even number of samples (they have: multiples of 16) *)
+Theorem C16_half_rate_concat : forall (A : Type) (l : list (list A)),
+  Forall (fun a => exists k, length a = (2 * k)%nat) l -> evens (concat l) = concat (map evens l).
+Proof. exact @evens_concat. Qed.
+Print Assumptions C16_half_rate_concat.
+
 (* (3) quantisation: the code is a nearest integer, ties go to the even one, and it fits in 14 bits *)
 Theorem C16_quantise_nearest_even : forall q,
   (Qabs (q - inject_Z (rint q)) <= 1 # 2)%Q /\
